@@ -303,5 +303,5 @@ def check_clause(rep, name, pc, goal, tier="quick", engine="E1b", sample=None):
     """Obligation: pc => goal valid.  Returns (ok, model)."""
     g = _b(goal) if not isinstance(goal, bool) else z3.BoolVal(goal)
     verdict, m, backend, secs = prove(pc, g, both=(tier == "thorough"))
-    rep.obligation(name, verdict == "proved", backend, secs, engine, sample=sample)
+    rep.obligation(name, verdict == "proved", backend, secs, engine, sample=sample, trivial=z3.is_true(z3.simplify(g)))
     return verdict, m
